@@ -803,7 +803,7 @@ Proof.
   intros Hst Hps Hi Hlen.
   assert (Hidx : forall m, tta_marker [p] i = Ok m -> idx m = sublist i (i + 3) (idx [p]) /\
                            same_strand (pst p) m /\ contains [p] m = true /\ llen m = 3).
-  { intros m. unfold tta_marker.
+  { intros m. unfold tta_marker. cbn [is_compound bind].
     change (lstrand [p]) with (pst p). change (lstart [p]) with (ps p). change (lend [p]) with (pe p).
     destruct Hst as [E|E]; rewrite E; cbn [Z.eqb Pos.eqb].
     - replace (ps p + i <? 0) with false by lia. intros H. injection H as <-.
@@ -828,12 +828,118 @@ Proof.
     rewrite (extract_idx (pst p) sq m H2).
     rewrite (extract_idx (pst p) sq [p]) by (repeat constructor).
     rewrite H1. symmetry. apply sublist_map.
-  - exfalso. unfold tta_marker in Hm.
+  - exfalso. unfold tta_marker in Hm. cbn [is_compound bind] in Hm.
     change (lstrand [p]) with (pst p) in Hm. change (lstart [p]) with (ps p) in Hm.
     change (lend [p]) with (pe p) in Hm.
     destruct (pst p =? 1).
     + destruct (ps p + i <? 0) eqn:Hc; [lia|discriminate].
     + destruct (pe p - i - 3 <? 0) eqn:Hc; [lia|discriminate].
+Qed.
+
+(* ================= TTA marker on a gene of several exons ================= *)
+(* the coordinate of the r-th spliced base is the r-th element of the ascending coordinates *)
+Lemma sublist_locate A : forall lo r x, mono lo A -> 0 <= r -> locate A r = Some x ->
+  sublist r (r + 1) (asc A) = [x].
+Proof.
+  induction A as [|p rest IH]; intros lo r x Hm Hr Hl; [discriminate|].
+  destruct Hm as [H1 [H2 H3]]. simpl in Hl.
+  assert (HLp : length (zrange (ps p) (pe p)) = Z.to_nat (plen p)) by apply zrange_length.
+  unfold asc in *. simpl flat_map.
+  destruct ((0 <=? r) && (r <? plen p)) eqn:Hc.
+  - injection Hl as <-. rewrite (sublist_app_l _ _ (plen p) r (r + 1) HLp) by lia.
+    rewrite sublist_zrange by (unfold plen in *; lia). unfold zrange.
+    replace (ps p + (r + 1) - (ps p + r)) with 1 by lia. reflexivity.
+  - rewrite (sublist_app_r _ _ (plen p) r (r + 1) HLp) by (unfold plen in *; lia).
+    replace (r + 1 - plen p) with (r - plen p + 1) by lia.
+    apply (IH (pe p)); [assumption|unfold plen in *; lia|assumption].
+Qed.
+
+Lemma zrange3 a : zrange a (a + 3) = [a; a + 1; a + 2].
+Proof.
+  unfold zrange. replace (a + 3 - a) with 3 by lia. simpl.
+  replace (a + 1 + 1) with (a + 2) by lia. reflexivity.
+Qed.
+
+(* the codon r of a gene that does not span the origin, strand 1 or -1, any number of exons: if its
+   three bases are adjacent in the record - [x, x+3) read in the gene's direction - the marker is
+   exactly [x, x+3) *)
+Lemma tta_codon st p A' r x :
+  st = 1 \/ st = -1 ->
+  mono 0 (p :: A') -> same_strand st (p :: A') -> 0 <= r -> r + 1 <= llen (p :: A') / 3 ->
+  sublist (3 * r) (3 * r + 3) (idx (gene_of st (p :: A'))) = idx [mkPart x (x + 3) st] ->
+  tta_marker (gene_of st (p :: A')) (3 * r) = Ok [mkPart x (x + 3) st].
+Proof.
+  intros Hpm Hm Hst Hr He Hadj.
+  assert (Hs : 0 <= r < r + 1) by lia.
+  destruct (convert_guard st p A' r (r + 1) Hm Hst Hs He) as [xu [xe [Hxu [Hxe [Hle Hconv]]]]].
+  set (A := p :: A') in *. set (L := llen A) in *.
+  destruct (offsets_range st r (r + 1) L Hs He) as [Hu Hv].
+  set (u := off_u st r (r + 1) L) in *. set (v := off_v st r (r + 1) L) in *.
+  assert (Hv3 : v = u + 3) by (unfold u, v, off_u, off_v; destruct (st =? -1); lia).
+  assert (Hm' : mono (ps p) A) by (destruct Hm as [_ Hm]; split; [lia|exact Hm]).
+  destruct (locate_total A (ps p) (u + 1) Hm') as [x1 Hx1]; [fold L; lia|].
+  destruct (locate_bounds _ _ _ _ Hm Hxu) as [_ [_ [_ Hx0]]].
+  assert (Hthree : sublist u (u + 3) (asc A) = [xu; x1; xe]).
+  { rewrite <- (sublist_join u (u + 1) (u + 3)) by lia.
+    rewrite <- (sublist_join (u + 1) (u + 2) (u + 3)) by lia.
+    rewrite (sublist_locate A (ps p) u xu Hm') by (assumption || lia).
+    replace (u + 2) with (u + 1 + 1) by lia.
+    rewrite (sublist_locate A (ps p) (u + 1) x1 Hm') by (assumption || lia).
+    replace (u + 3) with (u + 1 + 1 + 1) by lia.
+    rewrite (sublist_locate A (ps p) (u + 1 + 1) xe Hm'); [reflexivity|lia|].
+    replace (u + 1 + 1) with (v - 1) by lia. assumption. }
+  assert (Hxx : xu = x /\ xe = x + 2).
+  { rewrite (idx_gene st A Hst) in Hadj. unfold idx in Hadj. simpl flat_map in Hadj.
+    rewrite app_nil_r in Hadj. unfold part_idx in Hadj. cbn [pst ps pe] in Hadj.
+    destruct (asc_length A (mono_okp _ _ Hm)) as [HlenA _]. fold L in HlenA.
+    destruct (st =? -1) eqn:Est.
+    - replace (sublist (3 * r) (3 * r + 3) (rev (asc A)))
+        with (rev (sublist u (u + 3) (asc A))) in Hadj.
+      + rewrite Hthree, zrange3 in Hadj. simpl in Hadj. injection Hadj as E1 _ E3. lia.
+      + rewrite (rev_sublist _ _ _ L) by (assumption || lia). unfold u, off_u. rewrite Est. f_equal; lia.
+    - replace (3 * r) with u in Hadj by (unfold u, off_u; rewrite Est; lia).
+      rewrite Hthree, zrange3 in Hadj. injection Hadj as E1 _ E3. lia. }
+  destruct Hxx as [-> ->].
+  assert (Hne : A <> []) by discriminate.
+  pose proof (lstrand_same st _ (gene_nonempty st A Hne) (same_strand_gene st A Hst)) as Hstr.
+  unfold tta_marker. rewrite is_compound_gene, Hstr.
+  replace (3 * r / 3) with r by (rewrite Z.mul_comm, Z.div_mul; lia).
+  destruct A' as [|p2 A''].
+  - subst A. cbn [is_compound bind]. rewrite gene_single.
+    change (lstart [p]) with (ps p). change (lend [p]) with (pe p).
+    simpl in Hxu. change (llen [p]) with (plen p + 0) in L.
+    destruct ((0 <=? u) && (u <? plen p)) eqn:Hcu; [|discriminate]. injection Hxu as Hxu.
+    assert (Hstart : (if st =? 1 then ps p + 3 * r else pe p - 3 * r - 3) = x).
+    { clear Hadj Hthree Hconv Hx1 Hxe. subst u v L. unfold off_u, off_v, plen in *.
+      destruct Hpm as [E|E]; rewrite E in *; cbn [Z.eqb Pos.eqb] in *; lia. }
+    rewrite Hstart. replace (x <? 0) with false by lia. reflexivity.
+  - subst A. cbn [is_compound]. rewrite Hconv. cbn [bind fst snd].
+    replace (if st =? -1 then x + 2 + 1 - 3 else x) with x by (destruct (st =? -1); lia).
+    replace (x <? 0) with false by lia. reflexivity.
+Qed.
+
+Lemma lstrand_pm g st : lstrand g = st -> st = 1 \/ st = -1 -> same_strand st g.
+Proof.
+  destruct g as [|p r]; [unfold lstrand, S_None; intros <- [H|H]; discriminate H|].
+  unfold lstrand. destruct (forallb (fun q => pst q =? pst p) r) eqn:E.
+  - intros <- _. constructor; [reflexivity|]. apply Forall_forall. intros q Hq.
+    rewrite forallb_forall in E. specialize (E q Hq). lia.
+  - unfold S_None. intros <- [H|H]; discriminate H.
+Qed.
+
+Lemma tta_guard g r x :
+  guard_gene g = true -> lstrand g = 1 \/ lstrand g = -1 -> 0 <= r -> r + 1 <= llen g / 3 ->
+  sublist (3 * r) (3 * r + 3) (idx g) = idx [mkPart x (x + 3) (lstrand g)] ->
+  tta_marker g (3 * r) = Ok [mkPart x (x + 3) (lstrand g)] /\
+  (forall sq, extract sq [mkPart x (x + 3) (lstrand g)] = sublist (3 * r) (3 * r + 3) (extract sq g)).
+Proof.
+  intros Hg Hpm Hr He Hadj. destruct (guard_gene_form g Hg) as [st [A [-> [Hne [Hm Hst]]]]].
+  pose proof (lstrand_same st _ (gene_nonempty st A Hne) (same_strand_gene st A Hst)) as Hstr.
+  rewrite Hstr in *. rewrite llen_gene in He. destruct A as [|p A']; [congruence|].
+  split; [apply tta_codon; assumption|]. intros sq.
+  rewrite (extract_idx st sq [mkPart x (x + 3) st]) by (repeat constructor).
+  rewrite (extract_idx st sq _ (same_strand_gene st _ Hst)).
+  rewrite <- Hadj. symmetry. apply sublist_map.
 Qed.
 
 (* ================= codon_start: the adjustment is undone exactly ================= *)
@@ -895,7 +1001,7 @@ Proof.
       replace (pe p + o + - o) with (pe p) by lia.
       replace (pe p <? ps p) with false by lia. cbn [bind].
       destruct r as [|p2 r']; [rewrite <- Hps, part_eta; reflexivity|].
-      replace (pe p + o =? lend (q :: p2 :: r')) with true; [rewrite <- Hps, part_eta; reflexivity|].
+      replace (pe p + o =? lend (q :: p2 :: r')) with true; [rewrite orb_true_r, <- Hps, part_eta; reflexivity|].
       symmetry. apply Z.eqb_eq. symmetry. unfold lend. apply lmax_unique.
       + left. simpl. lia.
       + intros y Hy. simpl in Hy. destruct Hy as [<-|Hy]; [lia|].
@@ -905,7 +1011,7 @@ Proof.
       replace (ps p + o + - o) with (ps p) by lia.
       replace (pe p <? ps p) with false by lia. cbn [bind].
       destruct r as [|p2 r']; [rewrite <- Hps, part_eta; reflexivity|].
-      replace (ps p + o =? lstart (q :: p2 :: r')) with true; [rewrite <- Hps, part_eta; reflexivity|].
+      replace (ps p + o =? lstart (q :: p2 :: r')) with true; [rewrite orb_true_r, <- Hps, part_eta; reflexivity|].
       symmetry. apply Z.eqb_eq. symmetry. unfold lstart. apply lmin_unique.
       + left. simpl. lia.
       + intros y Hy. simpl in Hy. destruct Hy as [<-|Hy]; [lia|].
@@ -913,16 +1019,18 @@ Proof.
         destruct Hy as [x [<- Hx]]. rewrite Forall_forall in Hout. specialize (Hout x Hx). lia. }
   destruct (st =? -1) eqn:Est.
   - destruct (pe p + o <? ps p) eqn:Hc.
-    + destruct r as [|p2 r']; [discriminate|]. destruct (pe p =? lend (p :: p2 :: r')); discriminate.
+    + destruct r as [|p2 r']; [discriminate|].
+      destruct (bridges (p :: p2 :: r') || (pe p =? lend (p :: p2 :: r'))); discriminate.
     + assert (Hl' : l' = mkPart (ps p) (pe p + o) st :: r).
       { destruct r as [|p2 r']; cbn [bind] in H; [congruence|].
-        destruct (pe p =? lend (p :: p2 :: r')); [cbn [bind] in H; congruence|discriminate]. }
+        destruct (bridges (p :: p2 :: r') || (pe p =? lend (p :: p2 :: r'))); [cbn [bind] in H; congruence|discriminate]. }
       subst l'. apply Hgoal; [reflexivity|]. simpl. lia.
   - destruct (pe p <? ps p + o) eqn:Hc.
-    + destruct r as [|p2 r']; [discriminate|]. destruct (ps p =? lstart (p :: p2 :: r')); discriminate.
+    + destruct r as [|p2 r']; [discriminate|].
+      destruct (bridges (p :: p2 :: r') || (ps p =? lstart (p :: p2 :: r'))); discriminate.
     + assert (Hl' : l' = mkPart (ps p + o) (pe p) st :: r).
       { destruct r as [|p2 r']; cbn [bind] in H; [congruence|].
-        destruct (ps p =? lstart (p :: p2 :: r')); [cbn [bind] in H; congruence|discriminate]. }
+        destruct (bridges (p :: p2 :: r') || (ps p =? lstart (p :: p2 :: r'))); [cbn [bind] in H; congruence|discriminate]. }
       subst l'. apply Hgoal; [reflexivity|]. simpl. lia.
 Qed.
 
@@ -989,20 +1097,18 @@ Qed.
 
 Definition two_exons : loc := [mkPart 0 4 1; mkPart 10 15 1].
 
-Lemma tta_multi_exon_refuted :
-  exists g i m, guard_gene g = true /\ 0 <= i /\ i + 3 <= llen g /\
-    tta_marker g i = Ok m /\ contains g m = false /\ idx m <> sublist i (i + 3) (idx g).
+(* what is left of the finding tta_multi_exon after the repair: a codon that an intron splits (offset
+   3 of join{[0:4](+), [10:15](+)} = coordinates 3, 10, 11) cannot be covered by a marker of one
+   part; the marker starts at the codon's first base and runs into the intron *)
+Lemma tta_split_codon_refuted :
+  exists g r m, guard_gene g = true /\ 0 <= r /\ r + 1 <= llen g / 3 /\ codon_split g (3 * r) = true /\
+    tta_marker g (3 * r) = Ok m /\ idx m <> sublist (3 * r) (3 * r + 3) (idx g).
 Proof.
-  exists two_exons, 6, [mkPart 6 9 1].
+  exists two_exons, 1, [mkPart 3 6 1].
   split; [vm_compute; reflexivity|]. split; [lia|]. split; [vm_compute; discriminate|].
   split; [vm_compute; reflexivity|]. split; [vm_compute; reflexivity|].
   intros H. vm_compute in H. discriminate H.
 Qed.
-
-(* codon_start 2 or 3 on a gene that spans the origin: the adjustment itself fails *)
-Lemma codon_start_origin_refuted :
-  exists g cs, spanning_gene g = true /\ 1 <= cs <= 3 /\ frameshift g cs false = Err E_Assert.
-Proof. exists span_fwd, 2. split; [vm_compute; reflexivity|]. split; [lia|]. vm_compute. reflexivity. Qed.
 
 (* ================= codon_start: what the adjusted location reads ================= *)
 Definition first_exon_len (g : loc) : Z := match g with p :: _ => pe p - ps p | [] => 0 end.
@@ -1023,32 +1129,102 @@ Proof.
     destruct Hy as [x [<- Hx]]. specialize (Hout x Hx). simpl in Hout. lia.
 Qed.
 
-Lemma frameshift_shape st p r cs :
-  same_strand st (p :: r) -> first_outermost st (p :: r) -> 1 <= cs <= 3 -> cs - 1 <= pe p - ps p ->
+(* the test of _adjust_location_by_offset on a location of several parts: it crosses the origin
+   (location_bridges_origin), or its first listed exon is the outermost one *)
+Definition adj_test (st : Z) (p : part) (r : list part) : bool :=
+  bridges (p :: r) || (if st =? -1 then pe p =? lend (p :: r) else ps p =? lstart (p :: r)).
+
+Lemma frameshift_shape_gen st p r cs :
+  same_strand st (p :: r) -> adj_test st p r = true -> 1 <= cs <= 3 -> cs - 1 <= pe p - ps p ->
   frameshift (p :: r) cs false = Ok (shorten st p (cs - 1) :: r).
 Proof.
-  intros Hst Hout Hcs Hlen.
+  intros Hst Ht Hcs Hlen.
   destruct (same_strand_cons _ _ _ Hst) as [Hps Hrest].
   assert (Hstr : lstrand (p :: r) = st) by (apply lstrand_same; [discriminate|assumption]).
-  pose proof (first_outer_bound st p r Hout) as Hb.
   unfold frameshift. cbv zeta. rewrite Hstr.
   replace ((0 <=? cs - 1) && (cs - 1 <=? 2)) with true by lia. cbn [negb].
   unfold shorten. destruct (cs - 1 =? 0) eqn:Hz.
   - assert (Hk : cs - 1 = 0) by lia. rewrite Hk.
     unfold adjust_by_offset. destruct (st =? -1); simpl (_ =? 0); cbn iota;
       rewrite ?Z.sub_0_r, ?Z.add_0_r, <- Hps, part_eta; reflexivity.
-  - unfold adjust_by_offset. rewrite Hstr, Hps. unfold mkFL.
+  - unfold adjust_by_offset. rewrite Hstr, Hps. unfold mkFL. unfold adj_test in Ht.
     destruct (st =? -1) eqn:Est.
     + replace (- (cs - 1) =? 0) with false by lia.
       replace ((-2 <=? - (cs - 1)) && (- (cs - 1) <=? 2)) with true by lia. cbn [negb].
       replace (pe p + - (cs - 1) <? ps p) with false by lia.
       replace (pe p + - (cs - 1)) with (pe p - (cs - 1)) by lia.
-      destruct r as [|p2 r']; [reflexivity|].
-      replace (pe p =? lend (p :: p2 :: r')) with true by lia. reflexivity.
+      destruct r as [|p2 r']; [reflexivity|]. rewrite Ht. reflexivity.
     + rewrite Hz. replace ((-2 <=? cs - 1) && (cs - 1 <=? 2)) with true by lia. cbn [negb].
       replace (pe p <? ps p + (cs - 1)) with false by lia.
-      destruct r as [|p2 r']; [reflexivity|].
-      replace (ps p =? lstart (p :: p2 :: r')) with true by lia. reflexivity.
+      destruct r as [|p2 r']; [reflexivity|]. rewrite Ht. reflexivity.
+Qed.
+
+Lemma frameshift_shape st p r cs :
+  same_strand st (p :: r) -> first_outermost st (p :: r) -> 1 <= cs <= 3 -> cs - 1 <= pe p - ps p ->
+  frameshift (p :: r) cs false = Ok (shorten st p (cs - 1) :: r).
+Proof.
+  intros Hst Hout Hcs Hlen. apply frameshift_shape_gen; try assumption.
+  pose proof (first_outer_bound st p r Hout) as Hb. unfold adj_test.
+  destruct (st =? -1); rewrite Hb, Z.eqb_refl; apply orb_true_r.
+Qed.
+
+(* to_biopython's undo on the shortened location, under the same test *)
+Lemma frameshift_unshape st p r cs :
+  same_strand st (p :: r) -> adj_test st (shorten st p (cs - 1)) r = true ->
+  1 <= cs <= 3 -> cs - 1 <= pe p - ps p ->
+  frameshift (shorten st p (cs - 1) :: r) cs true = Ok (p :: r).
+Proof.
+  intros Hst Ht Hcs Hlen.
+  destruct (same_strand_cons _ _ _ Hst) as [Hps Hrest].
+  set (q := shorten st p (cs - 1)) in *.
+  assert (Hq : pst q = st) by (unfold q, shorten; destruct (st =? -1); reflexivity).
+  assert (Hst' : same_strand st (q :: r)) by (constructor; assumption).
+  assert (Hstr : lstrand (q :: r) = st) by (apply lstrand_same; [discriminate|assumption]).
+  unfold frameshift. cbv zeta. rewrite Hstr.
+  replace ((0 <=? cs - 1) && (cs - 1 <=? 2)) with true by lia. cbn [negb].
+  destruct (cs - 1 =? 0) eqn:Hz.
+  - assert (Hk : cs - 1 = 0) by lia.
+    assert (Hqp : q = p).
+    { unfold q, shorten. rewrite Hk. destruct (st =? -1);
+        rewrite ?Z.sub_0_r, ?Z.add_0_r, <- Hps; apply part_eta. }
+    rewrite Hqp, Hk. unfold adjust_by_offset. destruct (st =? -1); reflexivity.
+  - unfold adjust_by_offset. rewrite Hstr, Hq. unfold mkFL. unfold adj_test in Ht. fold q in Ht.
+    destruct (st =? -1) eqn:Est.
+    + replace (- - (cs - 1) =? 0) with false by lia.
+      replace ((-2 <=? - - (cs - 1)) && (- - (cs - 1) <=? 2)) with true by lia. cbn [negb].
+      assert (Hqq : ps q = ps p /\ pe q = pe p - (cs - 1)) by (unfold q, shorten; rewrite Est; split; reflexivity).
+      destruct Hqq as [Q1 Q2]. rewrite Q1, Q2.
+      replace (pe p - (cs - 1) + - - (cs - 1)) with (pe p) by lia.
+      replace (pe p <? ps p) with false by lia.
+      destruct r as [|p2 r']; cbn [bind]; [rewrite <- Hps, part_eta; reflexivity|].
+      rewrite Q2 in Ht. rewrite Ht. cbn [bind]. rewrite <- Hps, part_eta. reflexivity.
+    + replace (- (cs - 1) =? 0) with false by lia.
+      replace ((-2 <=? - (cs - 1)) && (- (cs - 1) <=? 2)) with true by lia. cbn [negb].
+      assert (Hqq : ps q = ps p + (cs - 1) /\ pe q = pe p) by (unfold q, shorten; rewrite Est; split; reflexivity).
+      destruct Hqq as [Q1 Q2]. rewrite Q1, Q2.
+      replace (ps p + (cs - 1) + - (cs - 1)) with (ps p) by lia.
+      replace (pe p <? ps p) with false by lia.
+      destruct r as [|p2 r']; cbn [bind]; [rewrite <- Hps, part_eta; reflexivity|].
+      rewrite Q1 in Ht. rewrite Ht. cbn [bind]. rewrite <- Hps, part_eta. reflexivity.
+Qed.
+
+(* shortening the first listed exon at its 5' end keeps a location that crosses the origin crossing it *)
+Lemma bridges_shorten st p r k : st = 1 \/ st = -1 -> same_strand st (p :: r) -> 0 <= k ->
+  bridges (p :: r) = true -> bridges (shorten st p k :: r) = true.
+Proof.
+  intros Hpm Hst Hk Hb.
+  destruct (same_strand_cons _ _ _ Hst) as [Hps Hrest].
+  set (q := shorten st p k) in *.
+  assert (Hq : pst q = st) by (unfold q, shorten; destruct (st =? -1); reflexivity).
+  assert (Hst' : same_strand st (q :: r)) by (constructor; assumption).
+  assert (Hstr : lstrand (p :: r) = st) by (apply lstrand_same; [discriminate|assumption]).
+  assert (Hstr' : lstrand (q :: r) = st) by (apply lstrand_same; [discriminate|assumption]).
+  unfold bridges in *. destruct r as [|p2 r']; [discriminate|]. cbn [is_compound] in *.
+  rewrite Hstr in Hb. rewrite Hstr'.
+  replace ((st =? 1) || (st =? -1)) with true in * by lia.
+  cbn [check_order] in *. apply orb_true_iff in Hb. apply orb_true_iff.
+  destruct Hb as [Hb|Hb]; [left|right; assumption].
+  unfold q, shorten. destruct Hpm; subst st; cbn [Z.eqb Pos.eqb ps] in *; lia.
 Qed.
 
 Lemma part_idx_length p : ps p <= pe p -> length (part_idx p) = Z.to_nat (pe p - ps p).
@@ -1156,6 +1332,122 @@ Proof.
       destruct (same_strand_cons _ _ _ Hst); assumption. }
     rewrite (extract_idx st sq _ Hst'), Hidx, skipn_map. reflexivity.
   - intros Hlt. simpl in Hlt. rewrite <- Hps. apply guard_shorten; [assumption|lia].
+Qed.
+
+(* the same for a location that crosses the origin (location_bridges_origin), strand 1 or -1: the
+   adjustment shortens the first listed exon - the 5' one - whatever its coordinates, the adjusted
+   location reads the annotated one from base codon_start-1 on, and to_biopython's undo restores it *)
+Lemma codon_start_bridging g cs :
+  bridges g = true -> lstrand g = 1 \/ lstrand g = -1 -> Forall okp g ->
+  1 <= cs <= 3 -> cs - 1 <= first_exon_len g ->
+  exists g', frameshift g cs false = Ok g' /\
+    idx g' = skipn (Z.to_nat (cs - 1)) (idx g) /\
+    llen g' = llen g - (cs - 1) /\
+    contains g g' = true /\
+    (forall sq, extract sq g' = skipn (Z.to_nat (cs - 1)) (extract sq g)) /\
+    frameshift g' cs true = Ok g.
+Proof.
+  intros Hb Hpm Hok Hcs Hlen. set (st := lstrand g) in *.
+  pose proof (lstrand_pm g st eq_refl Hpm) as Hst.
+  destruct g as [|p r]; [discriminate|]. simpl in Hlen.
+  destruct (same_strand_cons _ _ _ Hst) as [Hps Hrest].
+  exists (shorten st p (cs - 1) :: r).
+  split; [apply frameshift_shape_gen; try assumption; unfold adj_test; rewrite Hb; reflexivity|].
+  assert (Hidx : idx (shorten st p (cs - 1) :: r) = skipn (Z.to_nat (cs - 1)) (idx (p :: r)))
+    by (apply idx_shorten; [assumption|lia]).
+  split; [assumption|]. split; [apply llen_shorten|].
+  split; [apply contains_shorten; [assumption|lia]|].
+  split.
+  - intros sq. rewrite (extract_idx st sq (p :: r) Hst).
+    assert (Hst' : same_strand st (shorten st p (cs - 1) :: r)).
+    { constructor; [unfold shorten; destruct (st =? -1); reflexivity|assumption]. }
+    rewrite (extract_idx st sq _ Hst'), Hidx, skipn_map. reflexivity.
+  - apply frameshift_unshape; try assumption. unfold adj_test.
+    rewrite (bridges_shorten st p r (cs - 1)); try assumption; [reflexivity|lia].
+Qed.
+
+(* a well-formed gene that spans the origin (Model.spanning_gene) on strand 1 or -1 is a location that
+   location_bridges_origin recognises *)
+Lemma check_order_mid st : forall X a b Y,
+  (if st =? 1 then ps b <? ps a else ps a <? ps b) = true -> check_order st (X ++ a :: b :: Y) = true.
+Proof.
+  induction X as [|x X IH]; intros a b Y H.
+  - simpl app. change (check_order st (a :: b :: Y))
+      with ((if st =? 1 then ps b <? ps a else ps a <? ps b) || check_order st (b :: Y)).
+    rewrite H. reflexivity.
+  - simpl app. destruct (X ++ a :: b :: Y) as [|y l] eqn:E.
+    + destruct X; discriminate.
+    + change (check_order st (x :: y :: l))
+        with ((if st =? 1 then ps y <? ps x else ps x <? ps y) || check_order st (y :: l)).
+      rewrite <- E. rewrite (IH a b Y H). apply orb_true_r.
+Qed.
+
+Lemma split_run_spec : forall l prev first second, split_run prev l = (first, second) ->
+  prev :: l = first ++ second /\
+  (second = [] \/ exists F a b S, first = F ++ [a] /\ second = b :: S /\ ps b < pe a).
+Proof.
+  induction l as [|p r IH]; intros prev first second H; simpl in H.
+  - injection H as <- <-. split; [reflexivity|left; reflexivity].
+  - destruct (pe prev <=? ps p) eqn:E.
+    + destruct (split_run p r) as [a0 b0] eqn:E2. injection H as <- <-.
+      destruct (IH p a0 b0 E2) as [H1 H2]. split; [simpl; rewrite H1; reflexivity|].
+      destruct H2 as [H2|[F [a [b [S [HF [HS Hlt]]]]]]]; [left; assumption|].
+      right. exists (prev :: F), a, b, S. split; [simpl; rewrite HF; reflexivity|]. split; assumption.
+    + injection H as <- <-. split; [reflexivity|]. right. exists [], prev, p, r.
+      split; [reflexivity|]. split; [reflexivity|lia].
+Qed.
+
+Lemma spanning_bridges g : spanning_gene g = true -> lstrand g = 1 \/ lstrand g = -1 ->
+  bridges g = true /\ Forall okp g.
+Proof.
+  destruct g as [|p0 r0]; [discriminate|]. unfold spanning_gene. rewrite !andb_true_iff.
+  intros [[H1 _] H3] Hpm. apply same_strand_b_spec in H1.
+  assert (Hstr : lstrand (p0 :: r0) = pst p0) by (apply lstrand_same; [discriminate|assumption]).
+  rewrite Hstr in Hpm.
+  destruct (ascending (p0 :: r0)) as [|q r] eqn:Easc; [discriminate|].
+  destruct (split_run q r) as [first second] eqn:Esp.
+  destruct second as [|b0 S0] eqn:Esec; [discriminate|]. rewrite <- Esec in *. apply mono_b_spec in H3.
+  destruct (split_run_spec _ _ _ _ Esp) as [Happ [Hnil|[F [a [b [S [HF [HS Hlt]]]]]]]]; [congruence|].
+  assert (Hok : Forall okp (p0 :: r0)).
+  { pose proof (mono_okp _ _ H3) as Hk. apply Forall_app in Hk. destruct Hk as [K1 K2].
+    assert (Hk : Forall okp (ascending (p0 :: r0))) by (rewrite Easc, Happ; apply Forall_app; split; assumption).
+    unfold ascending in Hk. destruct (lstrand (p0 :: r0) =? -1); [|assumption].
+    rewrite <- (rev_involutive (p0 :: r0)). apply Forall_rev. assumption. }
+  split; [|assumption].
+  assert (Hba : ps b < ps a).
+  { rewrite HS, HF in H3.
+    replace ((b :: S) ++ F ++ [a]) with ((b :: S ++ F) ++ [a]) in H3 by (simpl; rewrite <- app_assoc; reflexivity).
+    pose proof (mono_app_last _ _ _ H3 b (or_introl eq_refl)) as Hl.
+    simpl in H3. destruct H3 as [_ [Hb _]]. lia. }
+  assert (Hasc : ascending (p0 :: r0) = F ++ a :: b :: S)
+    by (rewrite Easc, Happ, HF, HS, <- app_assoc; reflexivity).
+  unfold bridges. rewrite Hstr.
+  replace ((pst p0 =? 1) || (pst p0 =? -1)) with true by lia.
+  unfold ascending in Hasc. rewrite Hstr in Hasc.
+  destruct (pst p0 =? -1) eqn:Est.
+  - assert (Hg : p0 :: r0 = rev S ++ b :: a :: rev F).
+    { rewrite <- (rev_involutive (p0 :: r0)), Hasc, rev_app_distr. simpl. rewrite <- !app_assoc. reflexivity. }
+    rewrite Hg. replace (is_compound (rev S ++ b :: a :: rev F)) with true
+      by (destruct (rev S) as [|x [|y z]]; reflexivity).
+    apply check_order_mid. replace (pst p0 =? 1) with false by lia. lia.
+  - rewrite Hasc. replace (is_compound (F ++ a :: b :: S)) with true
+      by (destruct F as [|x [|y z]]; reflexivity).
+    apply check_order_mid. replace (pst p0 =? 1) with true by lia. lia.
+Qed.
+
+(* the statement for genes in the class the harness uses *)
+Lemma codon_start_origin g cs :
+  spanning_gene g = true -> lstrand g = 1 \/ lstrand g = -1 ->
+  1 <= cs <= 3 -> cs - 1 <= first_exon_len g ->
+  exists g', frameshift g cs false = Ok g' /\
+    idx g' = skipn (Z.to_nat (cs - 1)) (idx g) /\
+    llen g' = llen g - (cs - 1) /\
+    contains g g' = true /\
+    (forall sq, extract sq g' = skipn (Z.to_nat (cs - 1)) (extract sq g)) /\
+    frameshift g' cs true = Ok g.
+Proof.
+  intros Hsp Hpm Hcs Hlen. destruct (spanning_bridges g Hsp Hpm) as [Hb Hok].
+  apply codon_start_bridging; assumption.
 Qed.
 
 Lemma sublist_skipn {A} k u v (l : list A) : 0 <= k -> 0 <= u ->
